@@ -44,6 +44,10 @@ PLAN = {
     "C04": dict(suites=["C04"], mc=["MCQuire"], gen=["GenQuire"],
         rule="driver: quire histories of length 1..64 (products and single posits, all spellings, NaR at random positions, "
              "limb-straddling / tiny / huge / cancelling terms), each observed after every step; shuffled replays of the same bag"),
+    "C18": dict(suites=["C18"], mc=["MCQuire"],
+        rule="driver: x.polyN(&c) for N = 1..18, 3a, 4a, coefficient forms Self and [Self; 1..4], x from {minpos, maxpos, lattice, "
+             "random, near 1}, coefficients from lattice/random/zero/NaR, plus well-conditioned cases (x = 2, 1/2, -2, 1.5 with distinct "
+             "small coefficients) where a mis-indexed coefficient or wrong power changes the value"),
     "C12": dict(suites=["C12"], mc=["MCQuire"],
         rule="driver: posit->quire->posit for every P8/P16 pattern and P32 lattice+random; neg/clear/bits round trip/split at states "
              "reached by random histories"),
